@@ -360,7 +360,8 @@ impl MinCostFlowSolver {
         ]
         .into_iter()
         .max()
-        .unwrap();
+        .unwrap()
+        .max(1); // with all cost rates zero the vehicle count must still be minimised
 
         // spawning cost = costliest activity * (3 * planning days) * total_lower_bound.
         // This suffices, as the total non-spawning costs for the trivial schedule, where each vehicle do exactly one
